@@ -18,6 +18,8 @@ type factK int
 const (
 	kLenMin factK = iota
 	kNotNil
+	kLenMax0 // len(path) == 0
+	kLenEq   // len(path) == min
 )
 
 type pfact struct {
@@ -69,6 +71,14 @@ func lenFactsOf(cond ssa.Value, truth bool) []pfact {
 	case *ssa.BinOp:
 		op := c.Op
 		l, r := c.X, c.Y
+		if op == token.EQL || op == token.NEQ { // (cond) == true / != false … produced by `switch cond {case true:}`
+			if bv, isB := boolConst(r); isB {
+				return lenFactsOf(l, (bv == (op == token.EQL)) == truth)
+			}
+			if bv, isB := boolConst(l); isB {
+				return lenFactsOf(r, (bv == (op == token.EQL)) == truth)
+			}
+		}
 		p, off, ok := lenExpr(l)
 		k, kok := intConst(r)
 		if !ok || !kok {
@@ -92,7 +102,13 @@ func lenFactsOf(cond ssa.Value, truth bool) []pfact {
 		// len(p) + off OP k
 		base := k - off
 		switch {
-		case op == token.EQL && truth, op == token.NEQ && !truth, op == token.LSS && !truth, op == token.GEQ && truth:
+		case base == 0 && (op == token.NEQ && truth || op == token.EQL && !truth):
+			return []pfact{{kind: kLenMin, path: p, min: 1}} // len(x) != 0
+		case base == 0 && (op == token.EQL && truth || op == token.NEQ && !truth):
+			return []pfact{{kind: kLenMax0, path: p}} // len(x) == 0
+		case op == token.EQL && truth, op == token.NEQ && !truth:
+			return []pfact{{kind: kLenMin, path: p, min: base}, {kind: kLenEq, path: p, min: base}}
+		case op == token.LSS && !truth, op == token.GEQ && truth:
 			return []pfact{{kind: kLenMin, path: p, min: base}}
 		case op == token.GTR && truth, op == token.LEQ && !truth:
 			return []pfact{{kind: kLenMin, path: p, min: base + 1}}
@@ -128,6 +144,9 @@ func (f pfact) implies(want pfact) bool {
 	if f.kind == kLenMin {
 		return f.min >= want.min
 	}
+	if f.kind == kLenEq {
+		return f.min == want.min
+	}
 	return true
 }
 
@@ -140,6 +159,7 @@ type relFact struct {
 
 type FactEngine struct {
 	w        *World
+	resCache map[*ssa.Function][]relFact
 	ensCache map[*ssa.Function][]relFact
 	busy     map[*ssa.Function]bool
 	callers  map[*ssa.Function][]ssa.CallInstruction // static call sites in scope
@@ -147,7 +167,7 @@ type FactEngine struct {
 }
 
 func NewFactEngine(w *World, fns []*ssa.Function) *FactEngine {
-	fe := &FactEngine{w: w, ensCache: map[*ssa.Function][]relFact{}, busy: map[*ssa.Function]bool{}, callers: map[*ssa.Function][]ssa.CallInstruction{}}
+	fe := &FactEngine{w: w, resCache: map[*ssa.Function][]relFact{}, ensCache: map[*ssa.Function][]relFact{}, busy: map[*ssa.Function]bool{}, callers: map[*ssa.Function][]ssa.CallInstruction{}}
 	set := map[*ssa.Function]bool{}
 	for _, f := range fns {
 		set[f] = true
@@ -316,6 +336,13 @@ func (fe *FactEngine) factsOnEdgeDeep(fn *ssa.Function, e Edge) []pfact {
 			}
 			out = append(out, pfact{kind: rf.kind, path: pathOf(call.Call.Args[rf.param]) + rf.rel, min: rf.min})
 		}
+		if f.kind == fIsNil {
+			for _, rf := range fe.resultEnsures(cal) {
+				if rv := resultAt(call, rf.param); rv != nil {
+					out = append(out, pfact{kind: rf.kind, path: pathOf(rv), min: rf.min})
+				}
+			}
+		}
 	}
 	return out
 }
@@ -469,4 +496,56 @@ func alwaysReturnsNonNil(fn *ssa.Function, i int) bool {
 		}
 	}
 	return true
+}
+
+// resultEnsures: facts about result #i (relFact.param = result index) that hold at every success
+// return of an error-returning repo function, e.g. "the returned key has length 32".
+func (fe *FactEngine) resultEnsures(fn *ssa.Function) []relFact {
+	if fn == nil || len(fn.Blocks) == 0 || !isRepoFunc(fn) || errIndex(fn) < 1 {
+		return nil
+	}
+	if r, ok := fe.resCache[fn]; ok {
+		return r
+	}
+	if fe.busy[fn] {
+		return nil
+	}
+	fe.busy[fn] = true
+	defer func() { fe.busy[fn] = false }()
+	var out []relFact
+	first := true
+	for _, ret := range returnsOf(fn) {
+		if !successReturn(ret) {
+			continue
+		}
+		var here []relFact
+		for i := 0; i < errIndex(fn); i++ {
+			p := pathOf(ret.Results[i])
+			for _, b := range fn.Blocks {
+				for k := range b.Succs {
+					for _, f := range fe.factsOnEdgeDeep(fn, Edge{b, k}) {
+						if f.path == p && fe.holdsAtBlock(fn, ret.Block(), f) {
+							here = append(here, relFact{param: i, kind: f.kind, min: f.min})
+						}
+					}
+				}
+			}
+		}
+		if first {
+			out, first = here, false
+			continue
+		}
+		var keep []relFact
+		for _, a := range out {
+			for _, b := range here {
+				if a == b {
+					keep = append(keep, a)
+					break
+				}
+			}
+		}
+		out = keep
+	}
+	fe.resCache[fn] = out
+	return out
 }
